@@ -98,20 +98,28 @@ def resetOnlyInto (ctx : Ctx) (inits : Env) (resetLess : List Bool) (body : Stmt
       commitMask (ctx.shape i) (acc.val i) (inits.val i) (tab.get i)
     else acc.val i
 
+/-- what one synchronous process contributes at an event: its statements at an active clock edge,
+its reset-only process at a rising asynchronous reset -/
+def procAtEvent (D : Design) (cur cur' : Env) (p : Proc) (acc : Env) : Env :=
+  match p.dom with
+  | some d =>
+    let cfg := D.doms.getD d default
+    let acc1 :=
+      if cfg.clkFired cur cur' then
+        let rst := cfg.rst.map (fun r => cur'.val r)
+        commitInto D.ctx p.body (syncNext D.ctx D.inits D.resetLess rst p.body cur') acc
+      else acc
+    if cfg.rstFired cur cur' then resetOnlyInto D.ctx D.inits D.resetLess p.body acc1 else acc1
+  | none => acc
+
+/-- all synchronous processes woken by the event run on the same committed values `cur'` -/
+def syncPhase (D : Design) (cur cur' : Env) : Env :=
+  D.procs.foldl (fun acc p => procAtEvent D cur cur' p acc) cur'
+
 /-- one `step_design()` after the given simultaneous changes -/
 def eventStep (D : Design) (cur : Env) (changes : List (Nat × Int)) : Env :=
   let cur' := applyChanges cur changes
-  let afterSync := D.procs.foldl (fun acc p => match p.dom with
-    | some d =>
-      let cfg := D.doms.getD d default
-      let acc1 :=
-        if cfg.clkFired cur cur' then
-          let rst := cfg.rst.map (fun r => cur'.val r)
-          commitInto D.ctx p.body (syncNext D.ctx D.inits D.resetLess rst p.body cur') acc
-        else acc
-      if cfg.rstFired cur cur' then resetOnlyInto D.ctx D.inits D.resetLess p.body acc1 else acc1
-    | none => acc) cur'
-  combSettle D (D.procs.length + 2) (combDelta D afterSync)
+  combSettle D (D.procs.length + 2) (combDelta D (syncPhase D cur cur'))
 
 /-! ## Control inserters -/
 
